@@ -1,5 +1,6 @@
 import WM.Proto
 import WM.Model.Normalize
+import WM.Model.NormalizeExc
 import WM.Model.NormalizeReader
 import WM.Spec.Sat
 import WM.Spec.Clean
@@ -181,43 +182,63 @@ def env? (e : SExp) : Option Env := do
 
 def showTags (ts : List String) : String := "(" ++ " ".intercalate ts ++ ")"
 
-/-- Reader for `simplify`/`estimate_size`: `(reader (schema F ..) (lex (F term ..) ..))`. -/
+/-- Reader for `simplify`/`estimate_size`:
+    `(reader (schema F ..) (lex (F term ..) ..) [(dead (ID (F tok ..) ..) ..)])`; `dead` are the deleted
+    documents that `doc_frequency` still counts. -/
 def reader? (env : Env) (e : SExp) : Option Reader := do
-  match ← e.list? with
-  | [.atom "reader", .list (.atom "schema" :: fs), .list (.atom "lex" :: ls)] =>
+  let mk (fs ls ds : List SExp) : Option Reader := do
     let fields ← fs.mapM SExp.nat?
     let lex ← ls.mapM fun le => do
       match ← le.list? with
       | f :: terms => some (← f.nat?, ← terms.mapM text?)
       | [] => none
+    let dead ← ds.mapM doc?
     some {
       fields := fields
       lexicon := fun f => (lex.filter (·.1 == f)).flatMap (·.2)
-      docs := env.index }
+      docs := env.index
+      dead := dead }
+  match ← e.list? with
+  | [.atom "reader", .list (.atom "schema" :: fs), .list (.atom "lex" :: ls)] => mk fs ls []
+  | [.atom "reader", .list (.atom "schema" :: fs), .list (.atom "lex" :: ls), .list (.atom "dead" :: ds)] =>
+    mk fs ls ds
   | _ => none
 
 def showOptNat : Option Nat → String
   | none => "err"
   | some n => toString n
 
+/-- result of an exception-monad model function: the tree, or `raises:<Python exception class>` -/
+def showExc : Except Err Q → String
+  | .ok q => showQ q
+  | .error .assertion => "raises:AssertionError"
+
 def handle : List SExp → String
   | [.atom "norm", q] =>
     match q? q with
-    | some q => showQ (normalize q)
+    | some q => showExc (normalizeE q)
     | none => "bad-op"
   | [.atom "norm2", q] =>
     match q? q with
-    | some q => showQ (normalize (normalize q))
+    | some q => showExc (normalizeE q >>= normalizeE)
     | none => "bad-op"
   | [.atom "op", .atom o, a, b] =>
     match q? a, q? b with
     | some a, some b =>
       match o with
-      | "and" => showQ (opAnd a b)
-      | "or" => showQ (opOr a b)
-      | "sub" => showQ (opSub a b)
+      | "and" => showExc (opAndE a b)
+      | "or" => showExc (opOrE a b)
+      | "sub" => showExc (opSubE a b)
       | _ => "bad-op"
     | _, _ => "bad-op"
+  | [.atom "overlaps", a, b] =>
+    match (q? a).bind Q.asRange, (q? b).bind Q.asRange with
+    | some a, some b => showBool (a.overlaps b)
+    | _, _ => "bad-op"
+  | [.atom "merge", a, b, i] =>
+    match (q? a).bind Q.asRange, (q? b).bind Q.asRange, i.bool? with
+    | some a, some b, some i => showExc ((a.mergeE b i).map Rng.toQ)
+    | _, _, _ => "bad-op"
   | [.atom "boost", q, b] =>
     match q? q, b.rat? with
     | some q, some b => showQ (q.withBoost b)
@@ -234,6 +255,10 @@ def handle : List SExp → String
     match q? q with
     | some q => showQ (applyId q)
     | none => "bad-op"
+  | [.atom "beq", a, b] =>
+    match q? a, q? b with
+    | some a, some b => showBool (a == b)
+    | _, _ => "bad-op"
   | [.atom "field", q] =>
     match q? q with
     | some q => showOpt toString q.field
